@@ -114,6 +114,7 @@ func propC12(w *World, r *Report) {
 	checkWhoMayCallSinks(w, r, c)
 	// Y5: wiring passes non-nil motion and test sinks
 	checkSinkWiring(w, r, runs)
+	checkSinksDistinct(w, r, runs, "Y5")
 	r.Samples = append(r.Samples, map[string]interface{}{"inferred_invariant": []string{inv[0].pred, inv[1].pred, inv[2].pred}})
 }
 
@@ -338,4 +339,109 @@ func provablyNonNil(v ssa.Value, depth int) (bool, string) {
 		return false, "constant nil"
 	}
 	return false, fmt.Sprintf("cannot show %s non-nil", v.Name())
+}
+
+// checkSinksDistinct: at every production call of the processor's constructor the motion, continuous and test sinks are
+// different recorder objects (no object reachable from one argument is reachable from another). Each sink is driven by
+// its own start/write/stop state machine; two of them sharing one file recorder interleave their calls on one writer
+// (frames written twice, the other recording's file orphaned, a nil writer after the first stop).
+func checkSinksDistinct(w *World, r *Report, runs *motionRuns, rule string) {
+	c := runs.model.C
+	var origins func(v ssa.Value, depth int, out map[ssa.Value]bool)
+	origins = func(v ssa.Value, depth int, out map[ssa.Value]bool) {
+		if v == nil || depth > 8 || out[v] {
+			return
+		}
+		switch x := v.(type) {
+		case *ssa.MakeInterface:
+			origins(x.X, depth+1, out)
+		case *ssa.ChangeInterface:
+			origins(x.X, depth+1, out)
+		case *ssa.ChangeType:
+			origins(x.X, depth+1, out)
+		case *ssa.Phi:
+			for _, e := range x.Edges {
+				origins(e, depth+1, out)
+			}
+		case *ssa.Const:
+		case *ssa.UnOp:
+			if al, ok := x.X.(*ssa.Alloc); ok && al.Referrers() != nil {
+				for _, rf := range *al.Referrers() {
+					if st, ok := rf.(*ssa.Store); ok && st.Addr == ssa.Value(al) {
+						origins(st.Val, depth+1, out)
+					}
+				}
+				return
+			}
+			out[v] = true
+		case *ssa.Call:
+			out[v] = true
+			for _, a := range x.Call.Args {
+				switch a.Type().Underlying().(type) {
+				case *types.Pointer, *types.Interface:
+					if _, isConst := a.(*ssa.Const); !isConst {
+						origins(a, depth+1, out)
+					}
+				}
+			}
+		default:
+			out[v] = true
+		}
+	}
+	n := 0
+	for _, st := range runs.sites {
+		sets := map[int]map[ssa.Value]bool{}
+		for pi, role := range c.CtorSink {
+			m := map[ssa.Value]bool{}
+			origins(st.Call.Call.Args[pi], 0, m)
+			// shared context objects (configuration, camera description) are not recorders: only values whose type
+			// implements the recorder interface, or calls producing such, count
+			for v := range m {
+				if !implementsRecorder(w, v.Type()) {
+					delete(m, v)
+				}
+			}
+			sets[role] = m
+		}
+		for a := 0; a < len(c.RoleNames); a++ {
+			for b := a + 1; b < len(c.RoleNames); b++ {
+				var shared ssa.Value
+				for v := range sets[a] {
+					if sets[b][v] {
+						shared = v
+					}
+				}
+				n++
+				construct := fmt.Sprintf("wiring in %s: the %s and %s sinks are different recorder objects", st.Fn.Name(), c.RoleNames[a], c.RoleNames[b])
+				if shared != nil {
+					pos := w.InstrPos(st.Call)
+					if in, ok := shared.(ssa.Instruction); ok {
+						pos = w.InstrPos(in)
+					}
+					r.Fail(rule, construct, pos, "both sinks are (wrappers of) the same recorder: "+shared.String()+" - their start/write/stop sequences interleave on one file writer", "")
+				} else {
+					r.Pass(rule, construct, w.InstrPos(st.Call), fmt.Sprintf("%d / %d recorder objects, disjoint", len(sets[a]), len(sets[b])))
+				}
+			}
+		}
+	}
+	r.Check(n >= 3, "G4", "sink pairs examined at the wiring sites", "-", fmt.Sprint(n))
+}
+
+func implementsRecorder(w *World, t types.Type) bool {
+	rec := recorderIface(w)
+	if rec == nil {
+		return false
+	}
+	it, ok := rec.Underlying().(*types.Interface)
+	if !ok {
+		return false
+	}
+	if types.Implements(t, it) {
+		return true
+	}
+	if _, isPtr := t.(*types.Pointer); !isPtr {
+		return types.Implements(types.NewPointer(t), it)
+	}
+	return false
 }
